@@ -9,6 +9,7 @@
   that the answer is always an ordinary one reached with bounded recursion.
 -/
 import GoSecs.Lemmas.SmlInv
+import GoSecs.Lemmas.SmlCost
 import GoSecs.Gen.Facts
 import GoSecs.Gen.Consts
 
@@ -163,12 +164,75 @@ theorem fuel_suffices (O : Oracle) (strict : Bool) :
    fun st depth acc f1 f2 h1 h2 => (fuel_indep O strict st.data.length).2 st depth acc f1 f2 (Nat.le_refl _) h1 h2,
    fun input f h => parseLoop_fuel_suffices O strict input f h⟩
 
-/-
-  Not proved: `steps_quadratic_bound` (model step count ≤ c·|t|²).  The model has no step counter; the
-  ingredients are here — every `parseItem` activation consumes its own `<` (`ItemOk`), so there are at
-  most |t| of them and at most 2|t| list-loop iterations (`fuel_suffices`), and each does a bounded number
-  of linear scans of the remaining input — but the scans are not instrumented.  Time is observed on the
-  implementation (five super-linear shapes, wide margin) by the harness.
--/
+/-! ## Time
+
+  The cost semantics is in Model/SmlCost.lean (what a step is, which scans are counted — every byte a
+  scan examines, every time it is examined, plus every byte `numStr += string(ch)` copies, plus one per
+  method activation); the model itself is untouched. -/
+
+/-- **The instrumented parser computes what the model computes (`erase`).** `parseAllC` / `parseOneC`
+    return `(result, steps)`; the result component is the model function, so every theorem above
+    (`no_panic`, `depth_bound`, `hint_alloc_bound`, `error_offset_unclamped`, …) is a theorem about the
+    instrumented run whose steps are counted. -/
+theorem steps_erase (O : Oracle) (strict : Bool) (input : Bytes) :
+    (parseAllC O strict input).1 = parseAll O strict input ∧
+    (∀ headerOnly, (parseOneC O strict headerOnly input).1 = parseOne O strict headerOnly input) :=
+  ⟨rfl, fun _ => rfl⟩
+
+/-- **Quadratic time (`steps_quadratic_bound`).** In both modes, for every input `t` and every oracle:
+    `Parse` takes at most `19·|t|² + 158·|t| + 66` steps and `ParseMessage` / `ParseHeader` at most
+    `10·|t|² + 88·|t| + 65`, error reporting (the line/column scan of `newParseError`) included.  No
+    input makes the parser loop or take more than quadratic time.
+
+    Proof (Lemmas/SmlCost.lean), in the style of `hint_alloc_bound`: every scan examines at most the
+    unread input, so every non-recursive parser function costs at most `k·(bytes left) + k0` steps; the
+    two loops that are not of that shape cost at most `(bytes consumed)·(4·(bytes consumed) + 1)`
+    (`numStr += …` in strict ASCII) and `(bytes consumed)·((bytes left) + 1)` (`checkASCIICloseQuote` per
+    byte in non-strict ASCII).  With `pot L = 10·L² + 70·L`, `steps + pot(bytes left)` never increases
+    across a `parseItem` activation — it consumes at least its `<`, and `pot L − pot (L−1) ≥ 20·L + 60`
+    pays for all of its own scans — nor across a list loop; a message costs at most `pot` of what it
+    consumes plus `17·L + 57`, and every returned message consumed a byte, which pays for that with the
+    second potential `9·L² + 70·L`.
+
+    The order is exact for `Parse` and for strict mode, not an artefact of the proof: `k` body-less
+    messages `S1F1.\n` cost ≈ 3·k² steps (`IndexByte('<')` runs over the whole unread input for each),
+    and one numeric token of `k` bytes in a strict ASCII item costs ≈ k²/2 (each `numStr +=` copies the
+    token); the harness checks both on the model's step counts (driver command `sml.steps`) and on the
+    implementation (time and bytes allocated over doubling sizes). -/
+theorem steps_quadratic_bound (O : Oracle) (strict : Bool) (input : Bytes) :
+    (parseAllC O strict input).2 ≤ 19 * input.length ^ 2 + 158 * input.length + 66 ∧
+    (∀ headerOnly, (parseOneC O strict headerOnly input).2 ≤ 10 * input.length ^ 2 + 88 * input.length + 65) := by
+  simp only [Nat.pow_two]
+  exact ⟨parseAllSteps_le O strict input, fun h => parseOneSteps_le O strict h input⟩
+
+/-- The accounting the bound rests on (the analogue of `hint_alloc_local`).  (1) A scan for the first
+    byte with some property is counted in full: exactly `|data|` steps when no byte has it, never more.
+    (2) A successful `parseItem` activation on `L` unread bytes that leaves `L'` takes at most
+    `pot L − pot L' − (L + 5)` steps, children included, and consumes at least one byte; a failing one
+    at most `pot L + 6`.  (3) A message on `L` unread bytes takes at most `pot L − pot L' + 17·L + 57`
+    steps (`+ 63` if it fails). -/
+theorem steps_accounting (O : Oracle) (strict : Bool) :
+    (∀ (p : UInt8 → Bool) (data : Bytes), idxExam p data ≤ data.length ∧
+      ((∀ c ∈ data, p c = false) → idxExam p data = data.length)) ∧
+    (∀ (fuel depth : Nat) (st : St),
+      (∀ it st', parseItem O strict fuel depth st = .ok (it, st') →
+        st'.data.length + 1 ≤ st.data.length ∧
+        parseItemCost O strict fuel depth st + pot st'.data.length + (st.data.length + 5) ≤ pot st.data.length) ∧
+      (∀ e, parseItem O strict fuel depth st = .error e →
+        parseItemCost O strict fuel depth st ≤ pot st.data.length + 6)) ∧
+    (∀ (headerOnly : Bool) (st : St),
+      (∀ v st', parseMsg O strict headerOnly st = .ok (v, st') →
+        parseMsgCost O strict headerOnly st + pot st'.data.length ≤ pot st.data.length + 17 * st.data.length + 57) ∧
+      (∀ e, parseMsg O strict headerOnly st = .error e →
+        parseMsgCost O strict headerOnly st ≤ pot st.data.length + 17 * st.data.length + 63)) :=
+  ⟨fun p data => ⟨idxExam_le p data, idxExam_all p data⟩,
+   fun fuel depth st =>
+    ⟨fun it st' h => ⟨(parseItem_ok' h).2.2.1, (parseItem_cost O strict fuel depth st).1 it st' h⟩,
+     (parseItem_cost O strict fuel depth st).2⟩,
+   fun headerOnly st => parseMsg_cost O strict headerOnly st⟩
+
+/-- The potential is the stated polynomial. -/
+theorem steps_potential (L : Nat) : pot L = 10 * L ^ 2 + 70 * L := by
+  simp only [pot, Nat.pow_two]
 
 end GoSecs.Props.C14
